@@ -28,8 +28,9 @@ TECHNIQUE = ('property-based testing (Hypothesis) plus an exhaustive '
              'calibration against hand-written reference build files')
 RULE = ('Path components over printable ASCII incl. space and \' " $ # % & ( '
         ') * ? [ ] : , @ ! + ~ { } ; = | < > ^ ` (no / or \\, no leading '
-        'one-letter-plus-colon, not . or ..), length 1-6, in twelve roles '
-        '(source, header, exe/build_step/copy_file output, output directory, '
+        'one-letter-plus-colon, not . or ..), length 1-6, in thirteen roles '
+        '(source, header, exe/build_step/two-output build_step/copy_file output, '
+        'output directory, '
         'submodule directory, find_files hit, walked directory with and '
         'without a hit, include '
         'directory given per target and through global_options) x {make, '
@@ -47,7 +48,8 @@ LEVEL_NOTE = ('Trusted: GNU Make 4.3, the reference Ninja evaluator (not '
               'hand-written reference build files of this module.')
 ASSUMPTIONS = ['the header role additionally excludes " (C include syntax)']
 
-ROLES = ['source', 'header', 'exe', 'step', 'copy', 'outdir', 'submodule',
+ROLES = ['source', 'header', 'exe', 'step', 'multistep', 'copy', 'outdir',
+         'submodule',
          'findfile', 'finddir', 'walkdir', 'incdir', 'gincdir']
 SAFE = set(string.ascii_letters + string.digits + '_.-')
 ALPHABET = [c for c in map(chr, range(32, 127)) if c not in '/\\']
@@ -198,6 +200,16 @@ def render(role, n, src):
           "build_step.output], files=['in.dat'])\ndefault(o)\n".format(
               n + '.txt'))
         return [('B', n + '.txt')], ('S', 'in.dat'), [('B', n + '.txt')]
+    if role == 'multistep':
+        # a step with two outputs (Make: stamp file + outputs rule)
+        w(os.path.join(src, 'in.dat'), 'x\n')
+        w(os.path.join(src, 'build.bfg'),
+          "o = build_step([{!r}, {!r}], cmd=['sh', '-c', 'cp \"$0\" \"$1\" && "
+          "cp \"$0\" \"$2\"', build_step.input, build_step.output[0], "
+          "build_step.output[1]], files=['in.dat'])\ndefault(o[1])\n".format(
+              n + '.one', n + '.two'))
+        outs = [('B', n + '.one'), ('B', n + '.two')]
+        return outs, ('S', 'in.dat'), outs
     if role == 'copy':
         w(os.path.join(src, 'in.dat'), 'x\n')
         w(os.path.join(src, 'build.bfg'),
